@@ -24,9 +24,20 @@ def replay_plan(rp, run):
 
 def context(ev, events):
     # the configuration and every request of that logical trace up to the failing one
-    idx = next(i for i, e in enumerate(events) if e is ev or e == ev)
+    idx = next((i for i, e in enumerate(events) if e is ev), None)
+    if idx is None:
+        idx = next(i for i, e in enumerate(events) if e == ev)
     start = max(i for i in range(idx + 1) if events[i]["e"] == "cfg")
     seq = events[start + 1:idx + 1]
+    if events[start].get("toggled"):
+        # the predicate was switched in mid-sequence: the whole sequence, with the switch as a marker request
+        first = max(i for i in range(start) if events[i]["e"] == "cfg")
+        reqs = [e["req"] for e in events[first + 1:start] if "req" in e] + [{"m": "TOGGLE", "origin": "", "acrm": "", "acrh": "", "url": ""}] + \
+               [e["req"] for e in seq if "req" in e]
+        return {"cfg": dict(events[first]["cfg"], pred="toggle"), "reqs": reqs}
+    if events[start].get("toggle"):
+        return {"cfg": dict(events[start]["cfg"], pred="toggle"), "reqs": [e["req"] for e in seq if "req" in e] +
+                [{"m": "TOGGLE", "origin": "", "acrm": "", "acrh": "", "url": ""}]}
     if ev["e"] == "cstack":
         return {"cfg": events[start]["cfg"], "stacked": True,
                 "reqs": [{"m": "GET", "origin": e["origin"], "acrm": "", "acrh": "", "url": "/u1"} for e in seq if e["e"] == "cstack"]}
